@@ -63,6 +63,8 @@ PROPS = {
             'digit >= radix or no digit at all',
             'radix_and_digits: the prefix table incl. legacy "00"; the `&rest[2..]` slice is in range and on a char boundary',
             'decode_val: RFC 4648 alphabet; SfTag::can_parse_into_string table',
+            'deserialize_any (untyped targets): null forms -> unit; quoted, block, !!str-, !-tagged scalars stay strings; an untagged PLAIN scalar is inferred in exactly the order bool (strict or YAML 1.1 table as configured), integer (u64, then i64; a leading `-` goes to i64 unless the token has a redundant leading zero), float (non-finite values as their canonical strings), string; a dangling container end is an error',
+            'deserialize_bool (strict vs YAML 1.1 table), parse_yaml11_bool (the table itself), leading_zero_decimal, maybe_not_string (only PLAIN scalars can look like numbers / booleans / null), deserialize_string and take_string_scalar (scalar text, or the strict base64 payload as UTF-8 for !!binary; null forms refused unless tagged !!str; no_schema refuses number-like plain text; only a !!null tag or a plain null-like scalar is ever refused as null), deserialize_f64 (parsed from exactly the scalar text with its tag and the angle option)',
             'scalar_is_nullish / scalar_is_nullish_for_option: exactly the documented null tables (plain empty / ~ / null in any case; for Option also an empty literal or folded scalar); quoted scalars are never null-like',
             'decode_base64_yaml (unit base64): Ok(v) iff the text with ASCII whitespace removed is STRICT CANONICAL RFC 4648 base64 '
             '(length a multiple of 4, alphabet only, `=` padding only in the last quantum, unused low bits zero) and v is exactly its '
@@ -74,7 +76,7 @@ PROPS = {
         ],
         not_covered=[
             'float values (str::parse::<f64> is std), the YAML 1.1 / 1.2 bool tables (string comparisons are std; only uninterpreted here)',
-            'what str::trim removes (uninterpreted spec_trim); deserialize_bool/f32/f64/char/str/string; deserialize_any inference order',
+            'what str::trim removes (uninterpreted spec_trim); the float parser itself (uninterpreted sp_float; with the robotics feature see C19); deserialize_f32 / char / str (borrowing diagnostics)',
         ],
         assumptions=['str::trim / strip_prefix / starts_with / slicing behave as their shim contracts say (contracts/str.shim.rs)',
                      'iterator chains in decode_base64_yaml (bytes().filter(non-whitespace).collect(), rev().take_while(==b\'=\').count()) behave as their shims say (contracts/base64.shim.rs)',
